@@ -246,6 +246,9 @@ class PythonRegex(regex.Regex):
                 if (i != 0 and bracket_content[i - 1] == "-"
                         and not previous_is_valid_for_range):
                     previous_is_valid_for_range = False
+                elif i == 0 and symbol == "^":
+                    # The negation mark cannot be the start of a range
+                    previous_is_valid_for_range = False
                 else:
                     previous_is_valid_for_range = True
         bracket_content_temp = self._preprocess_negation(bracket_content_temp)
